@@ -89,7 +89,9 @@ func poolRow(i int, finiteOnly bool) *allKinds {
 		I32: []int32{0, math.MaxInt32, math.MinInt32}[i%3], I64: []int64{0, math.MaxInt64, math.MinInt64, 42}[i%4],
 		U: []uint{0, math.MaxUint64, 7}[i%3], U8: []uint8{0, 255, 9}[i%3], U16: []uint16{0, 65535}[i%2], U32: []uint32{0, math.MaxUint32}[i%2],
 		U64: []uint64{0, math.MaxUint64, 1 << 63}[i%3], F32: f32, F64: f64,
-		T:  time.Date(1970+i%80, time.Month(1+i%12), 1+i%28, 0, 0, 0, 0, time.UTC),
+		// a whole day in the declared format "2006-01-02" - also given in zones east and west of UTC (the day is the
+		// one of the value's own calendar)
+		T:  time.Date(1970+i%80, time.Month(1+i%12), 1+i%28, 0, 0, 0, 0, []*time.Location{time.UTC, time.FixedZone("east", 5*3600+1800), time.FixedZone("west", -8*3600)}[i%3]),
 		T2: time.Date(2001+i%30, time.Month(1+i%12), 1+i%28, i%24, i%60, (i*7)%60, 0, time.UTC),
 	}
 	return r
@@ -106,7 +108,13 @@ func sameAllKinds(a, b *allKinds) string {
 				return fmt.Sprintf("field %s: wrote %v (bits %x) read %v (bits %x)", name, fa.Float(), math.Float64bits(fa.Float()), fb.Float(), math.Float64bits(fb.Float()))
 			}
 		case reflect.Struct:
-			if !fa.Interface().(time.Time).Equal(fb.Interface().(time.Time)) {
+			ta, tb := fa.Interface().(time.Time), fb.Interface().(time.Time)
+			if format := va.Type().Field(i).Tag.Get("format"); format != "" {
+				// a date in a declared format: what the format shows must come back
+				if ta.Format(format) != tb.Format(format) {
+					return fmt.Sprintf("field %s: wrote %v (%s in the declared format) read %v (%s)", name, ta, ta.Format(format), tb, tb.Format(format))
+				}
+			} else if !ta.Equal(tb) {
 				return fmt.Sprintf("field %s: wrote %v read %v", name, fa.Interface(), fb.Interface())
 			}
 		default:
@@ -117,6 +125,8 @@ func sameAllKinds(a, b *allKinds) string {
 	}
 	return ""
 }
+
+var sharedCsv *helper.Csv[abc]
 
 func replayCsvMain(args []string) {
 	f, err := os.Open(args[0])
@@ -231,25 +241,33 @@ func replayCsvMain(args []string) {
 				}
 				sb.WriteString(strings.Join(cells, ",") + "\n")
 			}
-			c, _ := helper.NewCsv[abc](true)
-			var got []*abc
-			for r := range c.ReadFromReader(strings.NewReader(sb.String())) {
-				got = append(got, r)
+			// once with a codec of its own, once with ONE codec that reads every arrangement in turn (the mapping belongs to
+			// the input, not to the codec value)
+			if sharedCsv == nil {
+				sharedCsv, _ = helper.NewCsv[abc](true)
 			}
-			checks++
-			if len(got) != 2 {
-				add("header", nhdr, 0, fmt.Sprintf("header %v: %d rows read instead of 2", rec.Header, len(got)))
-			} else {
-				for r := 1; r <= 2; r++ {
-					want := func(f string) int {
-						if rec.Map[f] == 0 {
-							return 0
+			fresh, _ := helper.NewCsv[abc](true)
+			for ci, c := range []*helper.Csv[abc]{fresh, sharedCsv} {
+				how := []string{"", " (codec value reused from the previous input)"}[ci]
+				var got []*abc
+				for r := range c.ReadFromReader(strings.NewReader(sb.String())) {
+					got = append(got, r)
+				}
+				checks++
+				if len(got) != 2 {
+					add("header", nhdr, 0, fmt.Sprintf("header %v%s: %d rows read instead of 2", rec.Header, how, len(got)))
+				} else {
+					for r := 1; r <= 2; r++ {
+						want := func(f string) int {
+							if rec.Map[f] == 0 {
+								return 0
+							}
+							return 10*r + rec.Map[f]
 						}
-						return 10*r + rec.Map[f]
-					}
-					g := got[r-1]
-					if g.A != want("A") || g.B != want("B") || g.C != want("C") {
-						add("header", nhdr, r, fmt.Sprintf("header %v row %d read as %+v, mapping by name gives A=%d B=%d C=%d", rec.Header, r, *g, want("A"), want("B"), want("C")))
+						g := got[r-1]
+						if g.A != want("A") || g.B != want("B") || g.C != want("C") {
+							add("header", nhdr, r, fmt.Sprintf("header %v%s row %d read as %+v, mapping by name gives A=%d B=%d C=%d", rec.Header, how, r, *g, want("A"), want("B"), want("C")))
+						}
 					}
 				}
 			}
